@@ -121,6 +121,8 @@ mod jobserver;
 pub mod logs;
 mod paths;
 mod state;
+#[cfg(feature = "verif-hooks")]
+pub mod verif;
 
 pub use deps::{is_dirty, Dirtiness, DirtyCallbacks, DirtyCallbacksBuilder};
 pub use env::*;
